@@ -241,7 +241,7 @@ class Ctx:
                '-I' + os.path.join(REPO, 'include'), '-I' + os.path.join(VERIF, 'harness')]
         if san:
             cmd += ['-fsanitize=address,bounds', '-fno-sanitize-recover=all', '-fno-omit-frame-pointer']
-        cmd += list(flags) + ['-o', os.path.join(self.tmp, out)] + list(sources)
+        cmd += list(flags) + os.environ.get('VERIF_CFG', '').split() + ['-o', os.path.join(self.tmp, out)] + list(sources)    # VERIF_CFG: a build configuration of the library (check: -D__STDC_NO_ATOMICS__)
         rc, o, e = sh(cmd, timeout=timeout)
         if rc != 0:
             return None, o + e
